@@ -92,6 +92,32 @@ theorem fspec_length (b as : List α) (a0 zero : α) (hy hx xs : List α) :
   | nil => simp [fspec]
   | cons x xs ih => simp [fspec, ih]
 
+theorem take_eq_of_take_succ (l l' : List α) (n : Nat) (h : l.take (n + 1) = l'.take (n + 1)) :
+    l.take n = l'.take n := by
+  have := congrArg (List.take n) h
+  simpa [List.take_take, Nat.min_eq_left (Nat.le_succ n)] using this
+
+/-- only the first `as.length` items of the output history / memory are ever read -/
+theorem fspec_congr_hy (b as : List α) (a0 zero : α) :
+    ∀ (xs hy hy' hx : List α), hy.take as.length = hy'.take as.length →
+      fspec b as a0 zero hy hx xs = fspec b as a0 zero hy' hx xs := by
+  intro xs
+  induction xs with
+  | nil => intros; simp [fspec]
+  | cons x xs ih =>
+    intro hy hy' hx h
+    have hd : dot as hy = dot as hy' := by
+      rw [← dot_take as hy, ← dot_take as hy', h]
+    simp only [fspec, hd]
+    congr 1
+    apply ih
+    cases hn : as.length with
+    | zero => simp
+    | succ n =>
+      rw [hn] at h
+      simp only [List.take_succ_cons]
+      rw [take_eq_of_take_succ _ _ _ h]
+
 end machine
 
 /-! ### the sequential shift -/
